@@ -255,7 +255,7 @@ func decodeSpace(c *mc.Ctx, els []*element, tor [8]ref.Point, lam []*big.Int) {
 		R.Add(t.Encode())
 	}
 	R.Add(ref.Base.Encode())
-	ng := c.Pick(3000, 60000)
+	ng := c.Pick(3000, 40000)
 	for i := 0; i < ng; i++ {
 		b := mc.Bytes(c.Seed, "ristretto-string", i, 32)
 		switch i % 8 {
@@ -844,7 +844,7 @@ func opsSpace(c *mc.Ctx, els []*element, reps []*rrep) {
 		refBaseMul[k] = e.p
 	}
 	// scalars: the element scalars themselves (quick: 12 of them spread over the alphabet; thorough: all)
-	nk := c.Pick(8, ne)
+	nk := c.Pick(8, 36)
 	if nk > ne {
 		nk = ne
 	}
@@ -958,7 +958,7 @@ func uniformSpace(c *mc.Ctx) {
 			extra = append(extra, r, ref.FNeg(r))
 		}
 	}
-	Phi := alphed.FieldStrings(c.Seed, c.Pick(16, 110), extra, c.Thorough)
+	Phi := alphed.FieldStrings(c.Seed, c.Pick(16, 70), extra, c.Thorough)
 	c.Rep.Extra["alphabet_Phi_strings"] = len(Phi)
 	type half struct {
 		m     ref.Point
